@@ -31,6 +31,28 @@ def lit_bound(vals):
     return ts[0] if len(ts) == 1 else "(" + ", ".join(ts) + ")"
 
 
+def tuple_element_modules():
+    """tuple[...] whose ELEMENT types are value-dependent (shared with C01 and C10): the element's own bound is part of its meaning"""
+    out = []
+    pre = "from ovld.dependent import Equals\n\ndef _pos(x):\n    return x > 0      # (raises TypeError on a str / None, like most real conditions)\n"
+    T = "isinstance(v, tuple) and len(v) == 2"
+    out.append(("tuple_literal_element", gen.value_module(
+        "tuple_literal_element",
+        [("tuple[Literal[1], str]", f"{T} and isinstance(v[0], int) and v[0] == 1 and isinstance(v[1], str)"),
+         ("tuple[Literal['a'], str]", f"{T} and isinstance(v[0], str) and v[0] == 'a' and isinstance(v[1], str)")],
+        "a: int, s: str, k: int", "((a, s), (float(a), s), (a == 1, s), (s, s), (a,))[k % 5]", "len(s) <= 2", prelude=pre,
+        extra_static=("tuple", "object"), warm=("(1, 'a')", "(1.0, 'a')", "(True, 'a')", "(2, 'a')", "('a', 'b')", "(1,)"), native_only=True),
+        dict(family="value types", annotations=["tuple[Literal[1], str]", "tuple[Literal['a'], str]"])))
+    out.append(("tuple_dependent_element", gen.value_module(
+        "tuple_dependent_element",
+        [("tuple[Dependent[int, _pos], str]", f"{T} and isinstance(v[0], int) and v[0] > 0 and isinstance(v[1], str)"),
+         ("tuple[str, str]", f"{T} and isinstance(v[0], str) and isinstance(v[1], str)")],
+        "a: int, s: str, k: int", "((a, s), (s, s), (None, s), (a, a))[k % 4]", "len(s) <= 2", prelude=pre,
+        extra_static=("tuple", "object"), warm=("(1, 'a')", "(-1, 'a')", "('x', 'y')", "(None, 'y')", "(1, 2)"), native_only=True),
+        dict(family="value types", annotations=["tuple[Dependent[int, _pos], str]", "tuple[str, str]"])))
+    return out
+
+
 def gen_harnesses(tier, seed):
     rng = random.Random(seed)
     out = []
@@ -71,6 +93,13 @@ def gen_harnesses(tier, seed):
     def vm(name, anns, sig, build, pre, **kw):
         out.append((name, gen.value_module(name, anns, sig, build, pre, **kw), dict(family="value types", annotations=[a for a, _ in anns])))
 
+    out.extend((f"c11_{n_}", src_, meta_) for n_, src_, meta_ in tuple_element_modules())
+    # a class created at run time whose __name__ is not an identifier (generic containers of libraries name their classes "Vec[int]")
+    vm("c11_class_with_odd_name", [("tuple[Odd, int]", "isinstance(v, tuple) and len(v) == 2 and isinstance(v[0], Odd) and isinstance(v[1], int)"),
+                                   ("tuple[Dash, int]", "isinstance(v, tuple) and len(v) == 2 and isinstance(v[0], Dash) and isinstance(v[1], int)")],
+       "a: int, k: int", "((ODD, a), (DASH, a), (a, a), (ODD,))[k % 4]", None,
+       prelude="Odd = type('Vec[int]', (), {})\nDash = type('My-Class', (), {})\nODD, DASH = Odd(), Dash()", extra_static=("tuple", "object"),
+       warm=("(ODD, 1)", "(DASH, 1)", "(1, 1)"), native_only=True)
     T = "isinstance(v, tuple)"
     vm("c11_tuple2", [("tuple[int, str]", f"{T} and len(v) == 2 and isinstance(v[0], int) and isinstance(v[1], str)"),
                       ("tuple[int, int]", f"{T} and len(v) == 2 and isinstance(v[0], int) and isinstance(v[1], int)")],
